@@ -44,7 +44,7 @@ def expJ (t : SO3T K) : M3 K :=
   if Scalar.gt theta_sq Scalar.eps then
     let theta := Scalar.sqrt theta_sq
     let W := hat t
-    let J := M3.one.sub (M3.smul ((nat 1 - Scalar.cos theta) / theta_sq) W)
+    let J := M3.one.sub (M3.smul (nat 2 * Scalar.sin (theta / nat 2) * Scalar.sin (theta / nat 2) / theta_sq) W)
     J.add ((M3.smul ((theta - Scalar.sin theta) / (theta_sq * theta)) W).mul W)
   else
     M3.one.sub (M3.smul (rat 1 2) (hat t))
@@ -56,7 +56,7 @@ def ljac (t : SO3T K) : M3 K :=
     M3.one.add (M3.smul (rat 1 2) W)
   else
     let theta := Scalar.sqrt theta_sq
-    (M3.one.add (M3.smul ((nat 1 - Scalar.cos theta) / theta_sq) W)).add
+    (M3.one.add (M3.smul (nat 2 * Scalar.sin (theta / nat 2) * Scalar.sin (theta / nat 2) / theta_sq) W)).add
       ((M3.smul ((theta - Scalar.sin theta) / (theta_sq * theta)) W).mul W)
 
 def rjac (t : SO3T K) : M3 K := (ljac t).transpose
@@ -69,7 +69,7 @@ def ljacinv (t : SO3T K) : M3 K :=
   else
     let theta := Scalar.sqrt theta_sq
     ((M3.one.sub (M3.smul (rat 1 2) W))).add
-      ((M3.smul (nat 1 / theta_sq - (nat 1 + Scalar.cos theta) / (nat 2 * theta * Scalar.sin theta)) W).mul W)
+      ((M3.smul (nat 1 / theta_sq - Scalar.cos (theta / nat 2) / (nat 2 * theta * Scalar.sin (theta / nat 2))) W).mul W)
 
 def rjacinv (t : SO3T K) : M3 K := (ljacinv t).transpose
 def smallAdj (t : SO3T K) : M3 K := hat t
@@ -121,7 +121,7 @@ def logJ (X : SO3 K) : M3 K :=
   let theta2 := tan.v.sqNorm
   if Scalar.gt theta2 Scalar.eps then
     let theta := Scalar.sqrt theta2
-    J.add ((M3.smul (nat 1 / theta2 - (nat 1 + Scalar.cos theta) / (nat 2 * theta * Scalar.sin theta)) W).mul W)
+    J.add ((M3.smul (nat 1 / theta2 - Scalar.cos (theta / nat 2) / (nat 2 * theta * Scalar.sin (theta / nat 2))) W).mul W)
   else J
 
 def composeRaw (X Y : SO3 K) : Quat K :=
